@@ -2,8 +2,6 @@ package memefish
 
 import (
 	"unicode"
-
-	"github.com/cloudspannerecosystem/memefish/token"
 )
 
 // C12: SplitRawStatements partitions the input at top-level semicolons and nothing else.
@@ -26,6 +24,17 @@ func verifHarness_C12_soup(m int) {
 	verifC12(x)
 }
 
+// literal templates: a (raw / bytes) literal with k arbitrary body bytes, followed by ";a"
+func verifHarness_C12_lit(k, prefix, quote int) {
+	pre := []string{"", "r", "b", "rb"}[prefix]
+	q := []string{"'", "\"", "'''", "`"}[quote]
+	if quote == 3 && prefix != 0 {
+		return
+	}
+	x := "a " + pre + q + verifBytes(k) + q + ";a"
+	verifC12(x)
+}
+
 // verifConcreteTrim makes a picked (padded) entry concrete and removes the padding blanks.
 func verifConcreteTrim(s string) string {
 	s = verifConcrete(s)
@@ -36,8 +45,10 @@ func verifConcreteTrim(s string) string {
 	return s[:j]
 }
 
+// The token/comment oracle is the reference lexer (zz_verif_h_c14.go), so C12
+// does not inherit a mistake of lexer.go about where literals and comments end.
 func verifC12(x string) {
-	toks, lexOK := verifLexAll(x)
+	toks, comments, lexOK := verifRefLexC(x)
 	pieces, err := SplitRawStatements("f", x)
 	if !lexOK {
 		if err == nil {
@@ -71,22 +82,22 @@ func verifC12(x string) {
 	}
 	verifC12Gap(x, prevEnd, len(x), false, "after-last")
 	// every token except ';' and every comment lies inside exactly one piece; no ';' inside a piece
-	for _, t := range toks {
-		for _, c := range t.Comments {
-			if verifC12Count(pieces, int(c.Pos), int(c.End)) != 1 {
-				verifFail("C12/comment-not-in-exactly-one-piece", "")
-			}
+	for _, cm := range comments {
+		if verifC12Count(pieces, cm.pos, cm.end) != 1 {
+			verifFail("C12/comment-not-in-exactly-one-piece", "")
 		}
-		if t.Kind == token.TokenEOF {
+	}
+	for _, t := range toks {
+		if t.kind == "<eof>" {
 			continue
 		}
-		k := verifC12Count(pieces, int(t.Pos), int(t.End))
-		if t.Kind == ";" {
+		k := verifC12Count(pieces, t.pos, t.end)
+		if t.kind == ";" {
 			if k != 0 {
 				verifFail("C12/semicolon-inside-piece", "")
 			}
 		} else if k != 1 {
-			verifFail("C12/token-not-in-exactly-one-piece", string(t.Kind))
+			verifFail("C12/token-not-in-exactly-one-piece", t.kind)
 		}
 	}
 	verifObserveInt("pieces", len(pieces))
